@@ -18,6 +18,7 @@ package core
 
 import (
 	"fmt"
+	"strings"
 	"sync"
 
 	"github.com/Comcast/rulio/core/verifhook"
@@ -334,6 +335,9 @@ type RuleDone struct {
 }
 
 func OneShotSchedule(schedule string) bool {
+	// The cron services trim the schedule (cron.ParseSchedule),
+	// so " +1s" is the one-shot "+1s" for them.
+	schedule = strings.TrimSpace(schedule)
 	if 0 == len(schedule) {
 		return false
 	}
